@@ -15,7 +15,8 @@ RUN_KW = {"quick": dict(timeout_case=120, wall_cap=600), "thorough": dict(timeou
 ASSUMPTIONS = ["boundary wrappers see every call pybads makes to the user's target/constraint callables",
                "exact comparison is legitimate because pybads clamps/drops candidates; a 1-ulp excess is a violation"]
 
-GEOMW = {"lin": 1, "tight": 2, "log": 2.5, "logedge": 1.5, "mixedlog": 2, "unb": 1.5, "mixedunb": 1, "wide": 1, "offcentre": 1.5}
+GEOMW = {"lin": 1, "tight": 2, "log": 2.5, "logedge": 1.5, "mixedlog": 2, "unb": 1.5, "mixedunb": 1, "wide": 1, "offcentre": 1.5,
+         "logdecade": 3.5, "nicelin": 2.5}
 
 
 def cases(tier, seed):
@@ -47,7 +48,71 @@ def cases(tier, seed):
 
 
 def run_case(case):
-    return C.run_monitored(case, {"C01"})
+    rec = C.run_monitored(case, {"C01"})
+    if rec.get("status") in ("ok", "exception"):
+        try:
+            _boundary_stress(case, rec)
+        except Exception as e:  # framework error, loud
+            import traceback
+
+            rec["oracle_error"] = "boundary stress: " + "".join(traceback.format_exception(type(e), e, e.__traceback__))[-800:]
+    return rec
+
+
+def _boundary_stress(case, rec):
+    """Hostile use of the real evaluation path: a freshly constructed BADS for the same problem is asked
+    (through its own function logger, i.e. the path every evaluation takes) to evaluate internal points ON
+    the transformed hard bounds, on the mesh-rounded search bounds, and 1 ulp / 1e-9 outside the transformed
+    box - what rounding in the candidate arithmetic can produce.  The user-space argument of the target must
+    still be inside the hard box (clamp of the inverse transform)."""
+    import numpy as np
+    from pybads import BADS
+
+    P = gen.Problem(case["spec"])
+    seen = []
+
+    def f(x):
+        seen.append(np.array(x, float).ravel().copy())
+        return (0.0, 1.0) if P.mode == "he" else 0.0
+
+    try:
+        b = BADS(f, non_box_cons=None, options=dict(P.options), **P.bads_args())
+    except ValueError:
+        return
+    vt = b.var_transf
+    lbt, ubt = vt.lb.ravel(), vt.ub.ravel()
+    D = P.D
+    pts = []
+    mid = np.clip(np.zeros(D), np.where(np.isfinite(lbt), lbt, -1), np.where(np.isfinite(ubt), ubt, 1))
+    for base, sgn in ((lbt, -1.0), (ubt, 1.0)):
+        fin = np.isfinite(base)
+        if not fin.any():
+            continue
+        for mk in (lambda v: v, lambda v: np.nextafter(v, sgn * np.inf), lambda v: v + sgn * 1e-9 * np.maximum(1.0, np.abs(v))):
+            full = np.where(fin, mk(np.where(fin, base, 0.0)), mid)
+            pts.append(full)
+            for i in np.flatnonzero(fin):
+                one = mid.copy()
+                one[i] = full[i]
+                pts.append(one)
+    for key in ("lb_search", "ub_search"):
+        v = np.asarray(b.optim_state[key], float).ravel()
+        pts.append(np.where(np.isfinite(v), v, mid))
+    n = 0
+    for u in pts:
+        k0 = len(seen)
+        b.function_logger(np.array(u, float))
+        n += 1
+        x = seen[k0]
+        if not (np.all(x >= P.lb) and np.all(x <= P.ub) and np.all(np.isfinite(x))):
+            rec["viol"].append({"key": "C01/target-outside-box", "detail": {"via": "evaluation path fed a point on/just outside the transformed bound", "u": u, "x": x, "lb": P.lb, "ub": P.ub,
+                                                                            "lb_t": lbt, "ub_t": ubt}})
+            break
+    fl = b.function_logger
+    m = fl.Xn + 1
+    if m and not (np.all(fl.X_orig[:m] >= P.lb) and np.all(fl.X_orig[:m] <= P.ub)):
+        rec["viol"].append({"key": "C01/logged-original-outside-box", "detail": {"via": "boundary stress"}})
+    rec["cnt"]["C01.boundary_stress_points"] = n
 
 
 def summarize(records, tier, seed):
